@@ -27,7 +27,7 @@ git apply zz_out/patch.diff
 SCR=/tmp/seedout_$NAME; rm -rf $SCR; mkdir -p $SCR
 RES=""
 for c in $CHECKS; do
-  R=$(cd /verif && VERIF_REPO=$WT VERIF_OUT=$SCR ./check $c quick 2>&1 | grep -v "^\[" | grep "^VIOLATION\|^HELD\|^VIOLATED\|^INCONCLUSIVE\|^KNOWN" | tail -3 | tr '\n' ' ')
+  R=$(cd /verif && VERIF_REPO=$WT VERIF_OUT=$SCR ./check $c quick 2>&1 | grep -v "^\[" | grep "^VIOLATION\|^HELD\|^VIOLATED\|^INCONCLUSIVE\|^KNOWN\|violated obligation" | tail -6 | tr '\n' ' ')
   echo "check $c: $R"; RES="$RES $c: $R |"
 done
 rm -rf $SCR
